@@ -4,6 +4,19 @@ defects (from known_findings.json) and seeded changes (from seeded/*/meta.json +
 import glob, json, os, re
 
 MISSED = {
+ # round 4 (G, H)
+ 'C01-G': 'same edit as C13-H (cleanup of a refused compaction ends the running snapshot\'s mode): needs a compaction arriving while a snapshot is written - caught by C14 as it stood; C01 part `conc` (two administration goroutines) drives that overlap now. **Obsolete** since fix e1c9bc9 (compactions and snapshots exclude each other): the trigger is unreachable',
+ 'C01-H': 'C01 part `conc`: histories made by overlapping calls of several clients, restart from the plain log (also caught by C13 as it stood)',
+ 'C03-G': 'groups `longscan` / `scanedge`: damaged regions longer than the 8 KiB scan chunk, magic bytes and following frames at every offset around chunk boundaries, a second start on the repaired file',
+ 'C04-H': 'C04 part `owned`: several writers into one index, every id with one writer whose sequential model predicts its reads exactly (also caught by C13 as it stood)',
+ 'C05-G': 'rejections planted into emptied indexes (all vectors deleted; + vacuum / snapshot / rewrite / restart), shorter / longer / whole-batch dimension mismatches. **Obsolete** since fix 1c8f2b8 (the engine refuses such an insert before journaling)',
+ 'C06-H': 'fused-score oracle: text-only and hybrid scores recomputed with filter and graph scope (max-normalisation over the ELIGIBLE documents)',
+ 'C08-G': 'reads are part of the history: searches that combine the filter with a graph scope / text query / efSearch / k<n, and VFilter must answer the same before and after them (also caught by C06 as it stood)',
+ 'C08-H': 'group `concurrent`: filters evaluated while writers apply multi-key metadata transitions; window oracle over the versions an id had during the call',
+ 'C09-H': 'searches at every stage of the index life (empty index, pre-text phase, primary text stripped, decoy index), text field names as input, field-of-explicit-query oracle',
+ 'C10-G': 'C10 part `conc`: overlapping link / unlink calls with call-unique weights; history laws (disjoint life times, views = stored versions, stamps inside the call brackets) + restarts (also caught by C13 as it stood)',
+ 'C12-G': 'schedule `close while the snapshot / compaction waits behind the parked cascade` in mode admin_in_flight',
+ 'C13-H': 'same edit as C01-G. **Obsolete** since fix e1c9bc9: a compaction can no longer arrive while a snapshot has the journal in snapshot mode (the demonstration passes with the patch on the current HEAD); C13 now runs two administration goroutines in half of the W3/W4 cases',
  'C08-A': 'look-alike overwrites added to C08 (a value of another type that prints the same, as a transient)',
  'C08-B': '=/!= partition law asserted on the unsettled value classes + class `mixed` (number, its decimal string and lists under one key)',
  'C10-B': 'group `retention`: real GraphRetention window with the prune boundary inside the history, all restart kinds',
@@ -64,7 +77,7 @@ def seeds():
         first = first[:170] + ('...' if len(first) > 170 else '')
         n += 1
         if sid in MISSED:
-            how = '**missed at first** → ' + MISSED[sid] + ' — now caught by ' + ', '.join(caught)
+            how = '**missed at first** → ' + MISSED[sid] + (' — now caught by ' + ', '.join(caught) if caught and not r.get('obsolete') else '')
         else:
             caught_first += 1
             how = 'yes (' + ', '.join(caught) + ')'
